@@ -267,6 +267,9 @@ class A:
 def _fn_range(src, fn):
     """sig-token index range (hdr_idx, body_open_idx, body_close_idx) of function fn inside src (an item text)."""
     st = src.sigtext
+    if fn == '<block>':
+        # a lifted statement block (T11): the whole text is the body
+        return 0, -1, len(st)
     if fn is None:
         # the item itself: first `fn` token at depth 0, or, for non-fn items, the first {
         for k, t in enumerate(st):
